@@ -147,15 +147,19 @@ def accountsToUpsert (ps : List Posting) (am : Map String Meta) : List String :=
   ((am.foldl (fun (m : Map String Unit) e => m.insert e.1 ())
     (ps.foldl (fun (m : Map String Unit) p => (m.insert p.source ()).insert p.destination ()) []))).keys
 
+/-- The chart's default metadata for `address` under the operation's schema (none: no defaults). -/
+def defaultsOf (schema : Option Schema) (address : String) : Meta :=
+  match schema with
+  | some sc => (match sc.find address with | some d => d | none => [])
+  | none => []
+
 /-- `tx.AccountsWithDefaultMetadata(schema, accountMetadata)` -/
 def accountRows (schema : Option Schema) (tx : Tx) (am : Map String Meta) : List AccIn :=
   (accountsToUpsert tx.postings am).map fun a =>
     { address := a,
       metadata := (match am.get? a with | some m => m | none => []),
       firstUsage := some tx.timestamp, insertionDate := some tx.insertedAt, updatedAt := some tx.insertedAt,
-      defaults := (match schema with
-                   | some sc => (match sc.find a with | some d => d | none => [])
-                   | none => []) }
+      defaults := defaultsOf schema a }
 
 /-- The template rules at the head of `createTransaction`: on a schema with
     transaction templates a request without template is refused in strict mode
@@ -219,10 +223,7 @@ def revertBody (id : Nat) (force aed : Bool) (m : Meta) : Prog Payload :=
 /-! ### metadata, schema -/
 
 def saveAccMetaBody (schema : Option Schema) (address : String) (m : Meta) : Prog Payload :=
-  let defaults : Meta := match schema with
-    | some sc => (match sc.find address with | some d => d | none => [])
-    | none => []
-  .call (.upsertAccounts [{ address := address, metadata := m, defaults := defaults }]) fun _ =>
+  .call (.upsertAccounts [{ address := address, metadata := m, defaults := defaultsOf schema address }]) fun _ =>
   .pure (.savedMeta (.account address) m)
 
 /-- The function passed to `forgeLog` for each operation. -/
